@@ -208,6 +208,12 @@ fn serve(mut s: TcpStream, st: Arc<BackendState>) {
                     Err(_) => return,
                 }
             }
+            // a request without body leaves the connection reusable; after an early answer to a request whose
+            // body may still be in flight the connection is closed
+            if head.starts_with("GET ") {
+                if s.write_all(b"HTTP/1.1 200 OK\r\nContent-Length: 2\r\n\r\nok").is_err() { return; }
+                continue;
+            }
             let _ = s.write_all(b"HTTP/1.1 200 OK\r\nContent-Length: 2\r\nConnection: close\r\n\r\nok");
             let _ = s.flush();
             return;
